@@ -9,5 +9,5 @@ cd /verif
 export VERIF_TARGET=/verif/target_seed VERIF_OUT=${VERIF_OUT:-/tmp/vout}
 for id in "$@"; do
   echo "=== $id with $C reverted"
-  ./check "$id" --tier "${SEED_TIER:-quick}" 2>&1 | grep -E "^VIOLATION|^C[0-9]+ tier|signature|MACHINERY" | cut -c1-300 | head -${SEED_LINES:-14}
+  ./check "$id" --tier "${SEED_TIER:-quick}" 2>&1 | grep -E "^VIOLATION|^C[0-9]+ tier|signature|MACHINERY" | cut -c1-300 | awk -v n=${SEED_LINES:-14} "NR<=n"
 done
